@@ -39,6 +39,16 @@ let rec parse_node (toks : string list) : node * string list =
         | (NMap (t, _), r) -> (NFMap t, r)
         | (NList x, r) -> (NFList x, r)
         | other -> other)
+     | 'F' | 'K' ->                (* the child under a key of a typed node / the key node its iterator yields *)
+       let et = str_of_bytes (bytes_of_hex body) in
+       let i = String.index et ':' in
+       let j = String.index_from et (i + 1) ':' in
+       let key = String.sub et (j + 1) (String.length et - j - 1) in
+       let (c, r) = parse_node rest in
+       if t.[0] = 'K' then (NString (bytes_of_str key), r)
+       else (match lookup_by_string c (bytes_of_str key) with
+           | Ok v -> (v, r)
+           | Err _ -> failwith "parse_node: F: no such key")
      | 'n' -> (NNull, rest)
      | 't' -> (NBool true, rest)
      | 'f' -> (NBool false, rest)
